@@ -2307,9 +2307,9 @@ class Transport(threading.Thread, ClosingContextManager):
                 self.saved_exception = e
             except socket.error as e:
                 if type(e.args) is tuple:
-                    if e.args:
+                    if len(e.args) >= 2 and isinstance(e.args[0], int):
                         emsg = "{} ({:d})".format(e.args[1], e.args[0])
-                    else:  # empty tuple, e.g. socket.timeout
+                    else:  # empty or one-element tuple, e.g. socket.timeout
                         emsg = str(e) or repr(e)
                 else:
                     emsg = e.args
